@@ -153,7 +153,7 @@ PROPERTIES["C02"] = {
     "manifest": {
         "engine": "mirsym",
         "technique": "symbolic execution of ZmtpEngine::process_data (MIR, z3): one inductive step from a state with L pending frames",
-        "text": "Sender side: Socket::send_multipart refuses a message of more than 255 frames with an error before anything is queued and never panics. Receiver side of a connection: whatever bytes arrive while L in {0..255} MORE-frames are pending, the engine only delivers whole messages (MORE on all but the last frame, no COMMAND frame inside), and a message with more frames than FrameBatch supports closes the connection instead of panicking.",
+        "text": "Sender side: Socket::send_multipart refuses a message of more than 255 frames with an error before anything is queued and never panics; the frames ROUTER::send_multipart hands to the connection form ONE message (MORE on all but the last) whatever MORE flags the application left on the payload frames. Receiver side of a connection: whatever bytes arrive while L in {0..255} MORE-frames are pending, the engine only delivers whole messages (MORE on all but the last frame, no COMMAND frame inside), and a message with more frames than FrameBatch supports closes the connection instead of panicking.",
         "design_ref": "DESIGN.md §5 C02",
         "note": "Also: the PULL/SUB ingress engine keeps a partially read message contiguous under every mix of recv()/recv_multipart() and detach events (two peers, bounded call sequences). NOT claimed: the addressed (ROUTER/REQ) ingress engine, MORE-flag normalisation in the per-pattern send_multipart bodies, peer attach/detach interleavings (socket level).",
     },
@@ -169,6 +169,9 @@ PROPERTIES["C17"] = {
           "same ranges; failure (retry deadline stored), success, failure: counter and deadline cleared by the success, the next delay is the first delay again", [NOW]),
         K("c17_backoff_step", "c17_backoff", ["ReconnectState::on_connection_failure", "ReconnectState::on_connection_success"],
           "same ranges; two consecutive failures: monotone, at most doubling, capped; success resets", [NOW], tiers=("thorough",)),
+        M("c02_router_send_multipart_flags", "d_c02", "router_send_multipart_flags",
+          "RouterSocket::send_multipart in region mode (from prepare_wire_frames of the peer's strategy to the hand-over to the connection, inside its coroutine MIR): payload of 1..3 frames, each empty or one symbolic byte, each with an arbitrary MORE flag as set by the application; peer strategies DEALER / REQ / ROUTER / default; auto framing",
+          budget={"quick": 200, "thorough": 300}, required_covers=["c02.router.multi-frame-payload", "c02.router.flags-not-preset"]),
     ],
     "assumptions": ["Kani 0.68 / CBMC 6.11 model of std::time::Duration arithmetic (real std code, not a model)", "Instant::now stubbed by an arbitrary instant below 2^40 s"],
     "manifest": {
